@@ -1,9 +1,21 @@
-//! Verification shim for tokio: sequential, always-ready primitives.
+//! Verification shim for tokio: a sequential, cooperative model.
+//!
+//! * mpsc / oneshot: unbounded FIFO queues (capacity and back-pressure are NOT modelled);
+//!   `recv` is Ready(Some) when an item is queued, Ready(None) when empty and every sender is gone,
+//!   Pending otherwise.
+//! * time::Sleep: fires only when the harness says so (`__verif_timer_fire`), re-armed by `reset`.
+//! * spawn: registers the task in a small table; harnesses poll it with `__verif_poll_task`.
+//!   (`__verif_spawn_mode() == 0` drops the future instead: used where the spawned task is not
+//!   the subject and the state it owns is observed through channels.)
+//! * select!: polls every enabled branch once, starting from a harness-chosen index
+//!   (`__verif_choose`), with tokio's rule that a Ready value not matching the pattern disables
+//!   the branch; all disabled => panic (tokio's behaviour without an `else` branch).
 pub mod sync {
     pub mod mpsc {
+        use crate::SeqCell as Mutex;
         use std::collections::VecDeque;
         use std::sync::Arc;
-        use crate::SeqCell as Mutex;
+        use std::task::Poll;
         pub mod error {
             #[derive(Debug)]
             pub struct SendError<T>(pub T);
@@ -13,18 +25,22 @@ pub mod sync {
                 }
             }
         }
-        struct Inner<T> {
-            q: VecDeque<T>,
-            rx_alive: bool,
-            senders: usize,
+        pub struct Inner<T> {
+            pub q: VecDeque<T>,
+            pub rx_alive: bool,
+            pub senders: usize,
         }
-        pub struct Sender<T>(Arc<Mutex<Inner<T>>>);
-        pub struct Receiver<T>(Arc<Mutex<Inner<T>>>);
+        pub struct Sender<T>(pub Arc<Mutex<Inner<T>>>);
+        pub struct Receiver<T>(pub Arc<Mutex<Inner<T>>>);
         impl<T> std::fmt::Debug for Sender<T> {
-            fn fmt(&self, f: &mut std::fmt::Formatter) -> std::fmt::Result { write!(f, "Sender") }
+            fn fmt(&self, f: &mut std::fmt::Formatter) -> std::fmt::Result {
+                write!(f, "Sender")
+            }
         }
         impl<T> std::fmt::Debug for Receiver<T> {
-            fn fmt(&self, f: &mut std::fmt::Formatter) -> std::fmt::Result { write!(f, "Receiver") }
+            fn fmt(&self, f: &mut std::fmt::Formatter) -> std::fmt::Result {
+                write!(f, "Receiver")
+            }
         }
         pub fn channel<T>(_cap: usize) -> (Sender<T>, Receiver<T>) {
             let i = Arc::new(Mutex::new(Inner { q: VecDeque::new(), rx_alive: true, senders: 1 }));
@@ -37,49 +53,86 @@ pub mod sync {
             }
         }
         impl<T> Drop for Sender<T> {
-            fn drop(&mut self) { self.0.lock().unwrap().senders -= 1; }
+            fn drop(&mut self) {
+                self.0.lock().unwrap().senders -= 1;
+            }
         }
         impl<T> Drop for Receiver<T> {
-            fn drop(&mut self) { self.0.lock().unwrap().rx_alive = false; }
+            fn drop(&mut self) {
+                self.0.lock().unwrap().rx_alive = false;
+            }
         }
         impl<T> Sender<T> {
             pub async fn send(&self, v: T) -> Result<(), error::SendError<T>> {
                 let g = self.0.lock().unwrap();
-                if !g.rx_alive { return Err(error::SendError(v)); }
+                if !g.rx_alive {
+                    return Err(error::SendError(v));
+                }
                 g.q.push_back(v);
                 Ok(())
             }
-            pub fn is_closed(&self) -> bool { !self.0.lock().unwrap().rx_alive }
+            pub fn is_closed(&self) -> bool {
+                !self.0.lock().unwrap().rx_alive
+            }
         }
         impl<T> Receiver<T> {
-            /// Shim: never pends. Returns None when the queue is empty.
-            pub async fn recv(&mut self) -> Option<T> { self.0.lock().unwrap().q.pop_front() }
-            pub fn try_pop(&mut self) -> Option<T> { self.0.lock().unwrap().q.pop_front() }
-            pub fn len(&self) -> usize { self.0.lock().unwrap().q.len() }
+            pub async fn recv(&mut self) -> Option<T> {
+                std::future::poll_fn(|_| {
+                    let g = self.0.lock().unwrap();
+                    match g.q.pop_front() {
+                        Some(v) => Poll::Ready(Some(v)),
+                        None => {
+                            if g.senders == 0 {
+                                Poll::Ready(None)
+                            } else {
+                                Poll::Pending
+                            }
+                        }
+                    }
+                })
+                .await
+            }
+            /// harness-side observation helpers (not part of tokio's API)
+            pub fn try_pop(&mut self) -> Option<T> {
+                self.0.lock().unwrap().q.pop_front()
+            }
+            pub fn len(&self) -> usize {
+                self.0.lock().unwrap().q.len()
+            }
         }
     }
     pub mod oneshot {
+        use crate::SeqCell as Mutex;
         use std::future::Future;
         use std::pin::Pin;
         use std::sync::Arc;
-        use crate::SeqCell as Mutex;
         use std::task::{Context, Poll};
         pub mod error {
             #[derive(Debug)]
             pub struct RecvError(pub ());
             impl std::fmt::Display for RecvError {
-                fn fmt(&self, f: &mut std::fmt::Formatter) -> std::fmt::Result { write!(f, "channel closed") }
+                fn fmt(&self, f: &mut std::fmt::Formatter) -> std::fmt::Result {
+                    write!(f, "channel closed")
+                }
             }
             impl std::error::Error for RecvError {}
         }
-        struct Inner<T> { v: Option<T>, rx_alive: bool, tx_alive: bool }
-        pub struct Sender<T>(Arc<Mutex<Inner<T>>>);
-        pub struct Receiver<T>(Arc<Mutex<Inner<T>>>);
+        pub struct Inner<T> {
+            pub v: Option<T>,
+            pub rx_alive: bool,
+            pub tx_alive: bool,
+        }
+        pub struct Sender<T>(pub Arc<Mutex<Inner<T>>>);
+        pub struct Receiver<T>(pub Arc<Mutex<Inner<T>>>);
         impl<T> std::fmt::Debug for Sender<T> {
-            fn fmt(&self, f: &mut std::fmt::Formatter) -> std::fmt::Result { write!(f, "oneshot::Sender") }
+            fn fmt(&self, f: &mut std::fmt::Formatter) -> std::fmt::Result {
+                write!(f, "oneshot::Sender")
+            }
         }
         impl<T> std::fmt::Debug for Receiver<T> {
-            fn fmt(&self, f: &mut std::fmt::Formatter) -> std::fmt::Result { write!(f, "oneshot::Receiver") }
+            fn fmt(&self, f: &mut std::fmt::Formatter) -> std::fmt::Result {
+                write!(f, "oneshot::Receiver")
+            }
         }
         pub fn channel<T>() -> (Sender<T>, Receiver<T>) {
             let i = Arc::new(Mutex::new(Inner { v: None, rx_alive: true, tx_alive: true }));
@@ -88,21 +141,39 @@ pub mod sync {
         impl<T> Sender<T> {
             pub fn send(self, v: T) -> Result<(), T> {
                 let g = self.0.lock().unwrap();
-                if !g.rx_alive { return Err(v); }
+                if !g.rx_alive {
+                    return Err(v);
+                }
                 g.v = Some(v);
                 Ok(())
             }
-            pub fn is_closed(&self) -> bool { !self.0.lock().unwrap().rx_alive }
+            pub fn is_closed(&self) -> bool {
+                !self.0.lock().unwrap().rx_alive
+            }
         }
-        impl<T> Drop for Sender<T> { fn drop(&mut self) { self.0.lock().unwrap().tx_alive = false; } }
-        impl<T> Drop for Receiver<T> { fn drop(&mut self) { self.0.lock().unwrap().rx_alive = false; } }
+        impl<T> Drop for Sender<T> {
+            fn drop(&mut self) {
+                self.0.lock().unwrap().tx_alive = false;
+            }
+        }
+        impl<T> Drop for Receiver<T> {
+            fn drop(&mut self) {
+                self.0.lock().unwrap().rx_alive = false;
+            }
+        }
         impl<T> Future for Receiver<T> {
             type Output = Result<T, error::RecvError>;
             fn poll(self: Pin<&mut Self>, _cx: &mut Context<'_>) -> Poll<Self::Output> {
                 let g = self.0.lock().unwrap();
                 match g.v.take() {
                     Some(v) => Poll::Ready(Ok(v)),
-                    None => if g.tx_alive { Poll::Pending } else { Poll::Ready(Err(error::RecvError(()))) },
+                    None => {
+                        if g.tx_alive {
+                            Poll::Pending
+                        } else {
+                            Poll::Ready(Err(error::RecvError(())))
+                        }
+                    }
                 }
             }
         }
@@ -115,176 +186,175 @@ pub mod time {
     pub use std::time::Duration;
     #[derive(Clone, Copy, Debug, PartialEq, Eq, PartialOrd, Ord)]
     pub struct Instant(pub u64);
-    impl Instant { pub fn now() -> Self { Instant(0) } }
+    impl Instant {
+        pub fn now() -> Self {
+            Instant(0)
+        }
+    }
     impl std::ops::Add<Duration> for Instant {
         type Output = Instant;
-        fn add(self, d: Duration) -> Instant { Instant(self.0.wrapping_add(d.as_millis() as u64)) }
+        fn add(self, d: Duration) -> Instant {
+            Instant(self.0.wrapping_add(d.as_millis() as u64))
+        }
     }
+    /// `resets` counts re-arms; `fired` counts completions. Whether a poll completes is the harness's choice.
     #[derive(Debug)]
-    pub struct Sleep { pub resets: u64, pub deadline: Instant }
-    pub fn sleep(d: Duration) -> Sleep { Sleep { resets: 0, deadline: Instant::now() + d } }
+    pub struct Sleep {
+        pub resets: u64,
+        pub fired: u64,
+        pub deadline: Instant,
+        pub elapsed: bool,
+    }
+    pub fn sleep(d: Duration) -> Sleep {
+        Sleep { resets: 0, fired: 0, deadline: Instant::now() + d, elapsed: false }
+    }
     impl Sleep {
-        pub fn reset(mut self: Pin<&mut Self>, deadline: Instant) { self.resets += 1; self.deadline = deadline; }
+        pub fn reset(mut self: Pin<&mut Self>, deadline: Instant) {
+            self.resets += 1;
+            self.deadline = deadline;
+            self.elapsed = false;
+        }
+    }
+    fn __verif_timer_fire(_deadline_ms: u64) -> bool {
+        match crate::CTL.lock().unwrap().timer_mode {
+            0 => false,
+            1 => crate::nondet_bool(),
+            _ => true,
+        }
     }
     impl Future for Sleep {
         type Output = ();
-        fn poll(self: Pin<&mut Self>, _cx: &mut Context<'_>) -> Poll<()> { Poll::Pending }
+        fn poll(mut self: Pin<&mut Self>, _cx: &mut Context<'_>) -> Poll<()> {
+            // like tokio, an elapsed Sleep stays Ready until it is reset
+            if self.elapsed || __verif_timer_fire(self.deadline.0) {
+                if !self.elapsed {
+                    self.fired += 1;
+                }
+                self.elapsed = true;
+                Poll::Ready(())
+            } else {
+                Poll::Pending
+            }
+        }
     }
 }
 pub mod task {
     pub struct JoinHandle<T>(pub std::marker::PhantomData<T>);
     pub async fn yield_now() {}
 }
+
+type Task = std::pin::Pin<Box<dyn std::future::Future<Output = ()> + Send + 'static>>;
+pub const MAX_TASKS: usize = 4;
+pub struct Tasks {
+    pub slots: [Option<Task>; MAX_TASKS],
+    pub n: usize,
+    pub finished: [bool; MAX_TASKS],
+}
+pub static TASKS: SeqCell<Tasks> = SeqCell::new(Tasks { slots: [None, None, None, None], n: 0, finished: [false; MAX_TASKS] });
+
+/// Harness-side control of the environment model.
+pub struct Ctl {
+    /// false: `spawn` drops the task; true: it is registered in TASKS and polled by the harness
+    pub spawn_register: bool,
+    /// Sleep polls: 0 = never complete, 1 = nondeterministic, 2 = always complete
+    pub timer_mode: u8,
+}
+pub static CTL: SeqCell<Ctl> = SeqCell::new(Ctl { spawn_register: false, timer_mode: 0 });
+#[cfg(kani)]
+pub fn nondet_usize() -> usize {
+    kani::any()
+}
+#[cfg(kani)]
+pub fn nondet_bool() -> bool {
+    kani::any()
+}
+#[cfg(not(kani))]
+pub fn nondet_usize() -> usize {
+    0
+}
+#[cfg(not(kani))]
+pub fn nondet_bool() -> bool {
+    false
+}
 pub fn spawn<F>(f: F) -> task::JoinHandle<F::Output>
-where F: std::future::Future + Send + 'static, F::Output: Send + 'static {
-    drop(f);
+where
+    F: std::future::Future + Send + 'static,
+    F::Output: Send + 'static,
+{
+    if !CTL.lock().unwrap().spawn_register {
+        drop(f);
+    } else {
+        let t = TASKS.lock().unwrap();
+        if t.n >= MAX_TASKS {
+            panic!("tokio shim: task table full");
+        }
+        let i = t.n;
+        t.slots[i] = Some(Box::pin(async move {
+            let _ = f.await;
+        }));
+        t.n += 1;
+    }
     task::JoinHandle(std::marker::PhantomData)
 }
-#[macro_export]
-macro_rules! select {
-    (@parse {$($acc:tt)*} $p:pat = $f:expr => $h:block , $($r:tt)*) => { $crate::select!(@parse {$($acc)* (($p) ($f) ($h))} $($r)*) };
-    (@parse {$($acc:tt)*} $p:pat = $f:expr => $h:block $($r:tt)*) => { $crate::select!(@parse {$($acc)* (($p) ($f) ($h))} $($r)*) };
-    (@parse {$($acc:tt)*} $p:pat = $f:expr => $h:expr , $($r:tt)*) => { $crate::select!(@parse {$($acc)* (($p) ($f) ($h))} $($r)*) };
-    (@parse {$($acc:tt)*} $p:pat = $f:expr => $h:expr) => { $crate::select!(@parse {$($acc)* (($p) ($f) ($h))}) };
-    (@parse {$($acc:tt)*}) => { $crate::select!(@go $($acc)*) };
-    (@go (($p0:pat) ($f0:expr) ($h0:expr))) => {{
-        #[allow(non_camel_case_types, dead_code)] enum __Out<T0> { _0(T0), Disabled }
-        let __out = {
-            let mut __f0 = ::std::boxed::Box::pin($f0); let mut __d0 = false;
-            let __start = $crate::__choose(1);
-            ::std::future::poll_fn(|__cx| {
-                let mut __pending = false;
-                let mut __k = 0usize; while __k < 1 {
-                    let __b = (__start + __k) % 1; __k += 1;
-                    if __b == 0 && !__d0 { match ::std::future::Future::poll(__f0.as_mut(), __cx) {
-                        ::std::task::Poll::Ready(__v) => { #[allow(unused_variables, unreachable_patterns)] let __m = match &__v { $p0 => true, _ => false };
-                            if __m { return ::std::task::Poll::Ready(__Out::_0(__v)); } else { __d0 = true; } }
-                        ::std::task::Poll::Pending => { __pending = true; } } }
-                }
-                if __pending { ::std::task::Poll::Pending } else { ::std::task::Poll::Ready(__Out::Disabled) }
-            }).await
-        };
-        #[allow(unreachable_patterns)] match __out {
-            __Out::_0($p0) => $h0,
-            _ => ::core::panic!("select!: all branches disabled"),
-        }
-    }};
-    (@go (($p0:pat) ($f0:expr) ($h0:expr)) (($p1:pat) ($f1:expr) ($h1:expr))) => {{
-        #[allow(non_camel_case_types, dead_code)] enum __Out<T0,T1> { _0(T0), _1(T1), Disabled }
-        let __out = {
-            let mut __f0 = ::std::boxed::Box::pin($f0); let mut __d0 = false;
-            let mut __f1 = ::std::boxed::Box::pin($f1); let mut __d1 = false;
-            let __start = $crate::__choose(2);
-            ::std::future::poll_fn(|__cx| {
-                let mut __pending = false;
-                let mut __k = 0usize; while __k < 2 {
-                    let __b = (__start + __k) % 2; __k += 1;
-                    if __b == 0 && !__d0 { match ::std::future::Future::poll(__f0.as_mut(), __cx) {
-                        ::std::task::Poll::Ready(__v) => { #[allow(unused_variables, unreachable_patterns)] let __m = match &__v { $p0 => true, _ => false };
-                            if __m { return ::std::task::Poll::Ready(__Out::_0(__v)); } else { __d0 = true; } }
-                        ::std::task::Poll::Pending => { __pending = true; } } }
-                    if __b == 1 && !__d1 { match ::std::future::Future::poll(__f1.as_mut(), __cx) {
-                        ::std::task::Poll::Ready(__v) => { #[allow(unused_variables, unreachable_patterns)] let __m = match &__v { $p1 => true, _ => false };
-                            if __m { return ::std::task::Poll::Ready(__Out::_1(__v)); } else { __d1 = true; } }
-                        ::std::task::Poll::Pending => { __pending = true; } } }
-                }
-                if __pending { ::std::task::Poll::Pending } else { ::std::task::Poll::Ready(__Out::Disabled) }
-            }).await
-        };
-        #[allow(unreachable_patterns)] match __out {
-            __Out::_0($p0) => $h0,
-            __Out::_1($p1) => $h1,
-            _ => ::core::panic!("select!: all branches disabled"),
-        }
-    }};
-    (@go (($p0:pat) ($f0:expr) ($h0:expr)) (($p1:pat) ($f1:expr) ($h1:expr)) (($p2:pat) ($f2:expr) ($h2:expr))) => {{
-        #[allow(non_camel_case_types, dead_code)] enum __Out<T0,T1,T2> { _0(T0), _1(T1), _2(T2), Disabled }
-        let __out = {
-            let mut __f0 = ::std::boxed::Box::pin($f0); let mut __d0 = false;
-            let mut __f1 = ::std::boxed::Box::pin($f1); let mut __d1 = false;
-            let mut __f2 = ::std::boxed::Box::pin($f2); let mut __d2 = false;
-            let __start = $crate::__choose(3);
-            ::std::future::poll_fn(|__cx| {
-                let mut __pending = false;
-                let mut __k = 0usize; while __k < 3 {
-                    let __b = (__start + __k) % 3; __k += 1;
-                    if __b == 0 && !__d0 { match ::std::future::Future::poll(__f0.as_mut(), __cx) {
-                        ::std::task::Poll::Ready(__v) => { #[allow(unused_variables, unreachable_patterns)] let __m = match &__v { $p0 => true, _ => false };
-                            if __m { return ::std::task::Poll::Ready(__Out::_0(__v)); } else { __d0 = true; } }
-                        ::std::task::Poll::Pending => { __pending = true; } } }
-                    if __b == 1 && !__d1 { match ::std::future::Future::poll(__f1.as_mut(), __cx) {
-                        ::std::task::Poll::Ready(__v) => { #[allow(unused_variables, unreachable_patterns)] let __m = match &__v { $p1 => true, _ => false };
-                            if __m { return ::std::task::Poll::Ready(__Out::_1(__v)); } else { __d1 = true; } }
-                        ::std::task::Poll::Pending => { __pending = true; } } }
-                    if __b == 2 && !__d2 { match ::std::future::Future::poll(__f2.as_mut(), __cx) {
-                        ::std::task::Poll::Ready(__v) => { #[allow(unused_variables, unreachable_patterns)] let __m = match &__v { $p2 => true, _ => false };
-                            if __m { return ::std::task::Poll::Ready(__Out::_2(__v)); } else { __d2 = true; } }
-                        ::std::task::Poll::Pending => { __pending = true; } } }
-                }
-                if __pending { ::std::task::Poll::Pending } else { ::std::task::Poll::Ready(__Out::Disabled) }
-            }).await
-        };
-        #[allow(unreachable_patterns)] match __out {
-            __Out::_0($p0) => $h0,
-            __Out::_1($p1) => $h1,
-            __Out::_2($p2) => $h2,
-            _ => ::core::panic!("select!: all branches disabled"),
-        }
-    }};
-    (@go (($p0:pat) ($f0:expr) ($h0:expr)) (($p1:pat) ($f1:expr) ($h1:expr)) (($p2:pat) ($f2:expr) ($h2:expr)) (($p3:pat) ($f3:expr) ($h3:expr))) => {{
-        #[allow(non_camel_case_types, dead_code)] enum __Out<T0,T1,T2,T3> { _0(T0), _1(T1), _2(T2), _3(T3), Disabled }
-        let __out = {
-            let mut __f0 = ::std::boxed::Box::pin($f0); let mut __d0 = false;
-            let mut __f1 = ::std::boxed::Box::pin($f1); let mut __d1 = false;
-            let mut __f2 = ::std::boxed::Box::pin($f2); let mut __d2 = false;
-            let mut __f3 = ::std::boxed::Box::pin($f3); let mut __d3 = false;
-            let __start = $crate::__choose(4);
-            ::std::future::poll_fn(|__cx| {
-                let mut __pending = false;
-                let mut __k = 0usize; while __k < 4 {
-                    let __b = (__start + __k) % 4; __k += 1;
-                    if __b == 0 && !__d0 { match ::std::future::Future::poll(__f0.as_mut(), __cx) {
-                        ::std::task::Poll::Ready(__v) => { #[allow(unused_variables, unreachable_patterns)] let __m = match &__v { $p0 => true, _ => false };
-                            if __m { return ::std::task::Poll::Ready(__Out::_0(__v)); } else { __d0 = true; } }
-                        ::std::task::Poll::Pending => { __pending = true; } } }
-                    if __b == 1 && !__d1 { match ::std::future::Future::poll(__f1.as_mut(), __cx) {
-                        ::std::task::Poll::Ready(__v) => { #[allow(unused_variables, unreachable_patterns)] let __m = match &__v { $p1 => true, _ => false };
-                            if __m { return ::std::task::Poll::Ready(__Out::_1(__v)); } else { __d1 = true; } }
-                        ::std::task::Poll::Pending => { __pending = true; } } }
-                    if __b == 2 && !__d2 { match ::std::future::Future::poll(__f2.as_mut(), __cx) {
-                        ::std::task::Poll::Ready(__v) => { #[allow(unused_variables, unreachable_patterns)] let __m = match &__v { $p2 => true, _ => false };
-                            if __m { return ::std::task::Poll::Ready(__Out::_2(__v)); } else { __d2 = true; } }
-                        ::std::task::Poll::Pending => { __pending = true; } } }
-                    if __b == 3 && !__d3 { match ::std::future::Future::poll(__f3.as_mut(), __cx) {
-                        ::std::task::Poll::Ready(__v) => { #[allow(unused_variables, unreachable_patterns)] let __m = match &__v { $p3 => true, _ => false };
-                            if __m { return ::std::task::Poll::Ready(__Out::_3(__v)); } else { __d3 = true; } }
-                        ::std::task::Poll::Pending => { __pending = true; } } }
-                }
-                if __pending { ::std::task::Poll::Pending } else { ::std::task::Poll::Ready(__Out::Disabled) }
-            }).await
-        };
-        #[allow(unreachable_patterns)] match __out {
-            __Out::_0($p0) => $h0,
-            __Out::_1($p1) => $h1,
-            __Out::_2($p2) => $h2,
-            __Out::_3($p3) => $h3,
-            _ => ::core::panic!("select!: all branches disabled"),
-        }
-    }};
-    ($($t:tt)*) => { $crate::select!(@parse {} $($t)*) };
+/// Poll spawned task `i` once. Returns true when it has completed (now or earlier).
+pub fn __verif_poll_task(i: usize) -> bool {
+    let t = TASKS.lock().unwrap();
+    if t.finished[i] {
+        return true;
+    }
+    let w = noop_waker();
+    let mut cx = std::task::Context::from_waker(&w);
+    match t.slots[i].as_mut() {
+        Some(f) => match f.as_mut().poll(&mut cx) {
+            std::task::Poll::Ready(()) => {
+                t.finished[i] = true;
+                true
+            }
+            std::task::Poll::Pending => false,
+        },
+        None => true,
+    }
 }
+pub fn noop_waker() -> std::task::Waker {
+    use std::task::{RawWaker, RawWakerVTable, Waker};
+    fn clone(_: *const ()) -> RawWaker {
+        RawWaker::new(std::ptr::null(), &VT)
+    }
+    fn noop(_: *const ()) {}
+    static VT: RawWakerVTable = RawWakerVTable::new(clone, noop, noop, noop);
+    unsafe { Waker::from_raw(RawWaker::new(std::ptr::null(), &VT)) }
+}
+
+include!("select.rs");
+
 #[macro_export]
-macro_rules! pin { ($($x:ident),*) => { $( let mut $x = ::std::boxed::Box::pin($x); )* }; }
-extern "Rust" { fn __verif_choose(n: usize) -> usize; }
+macro_rules! pin {
+    ($($x:ident),*) => { $(
+        let mut $x = $x;
+        #[allow(unused_mut)]
+        let mut $x = unsafe { ::std::pin::Pin::new_unchecked(&mut $x) };
+    )* };
+}
 #[doc(hidden)]
-pub fn __choose(n: usize) -> usize { let c = unsafe { __verif_choose(n) }; if c < n { c } else { 0 } }
+pub fn __choose(n: usize) -> usize {
+    let c = nondet_usize();
+    if c < n {
+        c
+    } else {
+        0
+    }
+}
 
 /// Sequential interior-mutability cell (the verification executor is single-threaded).
 pub struct SeqCell<T>(std::cell::UnsafeCell<T>);
 unsafe impl<T> Send for SeqCell<T> {}
 unsafe impl<T> Sync for SeqCell<T> {}
 impl<T> SeqCell<T> {
-    pub const fn new(v: T) -> Self { SeqCell(std::cell::UnsafeCell::new(v)) }
+    pub const fn new(v: T) -> Self {
+        SeqCell(std::cell::UnsafeCell::new(v))
+    }
     #[allow(clippy::mut_from_ref)]
-    pub fn lock(&self) -> Result<&mut T, ()> { Ok(unsafe { &mut *self.0.get() }) }
+    pub fn lock(&self) -> Result<&mut T, ()> {
+        Ok(unsafe { &mut *self.0.get() })
+    }
 }
